@@ -242,6 +242,16 @@ def _build(node, names, v, cfg, depth=None, hints=None, mut=None):
         if h == 3:
             hints.wrong = True
             return ("no.such.Branch", val)
+        if h == 4:
+            # a hint naming a type that IS defined in the schema but is not a branch of this union, with a value
+            # conforming to that foreign type
+            own = {branch_name(b, names) for b in node["branches"]}
+            for full in sorted(names):
+                if full not in own and names[full]["k"] in ("record", "enum", "fixed"):
+                    hints.wrong = True
+                    fv = samples(names[full], names, cfg, 11, n=1)[0]
+                    return (full, _build(names[full], names, fv, cfg, depth, None, None))
+            raise OutOfDomain()
         raise OutOfDomain()
     if k == "record":
         if not node["fields"]:
